@@ -203,6 +203,15 @@ def run(spec, rec):
             ok, got = rec.noraise("returns", lambda: fs.marginalize(list(over)), site="Spectrum.marginalize", tags=t)
             if ok:
                 judge("marginalize", got, ref, eids, "Spectrum.marginalize", t)
+            if ok and not folded:
+                # with the result's corners left unmasked they are sums like every other entry: over the unmasked entries of the source
+                # (whatever is stored underneath the source's own corner masks is not part of it)
+                okc, gotc = rec.noraise("returns", lambda: fs.marginalize(list(over), mask_corners=False), site="Spectrum.marginalize", tags=dict(t, mask_corners=False))
+                if okc:
+                    gm = np.asarray(np.ma.getmaskarray(gotc))
+                    rec.check("mask", not gm.any(), site="Spectrum.marginalize", tags=dict(t, mask_corners=False), observed=gm.astype(int))
+                    gd = np.where(gm, 0.0, np.asarray(gotc.data))
+                    rec.close("marginalize", relerr(gd, ref, scale=max(np.max(np.abs(ref)), 1e-300)), TOL, site="Spectrum.marginalize", tags=dict(t, mask_corners=False))
             # the axes to sum over are a set: any order of naming them (list or tuple) gives the same spectrum
             if len(over) > 1:
                 shuffled = [int(a) for a in rng.permutation(over)]
